@@ -923,6 +923,13 @@ func wildQuery(c *runner.Ctx, w *world) (string, map[string]interface{}) {
 		`{ us { id } }`,
 		`{ n { x } }`,
 		`{ as }`,
+		// one alias for selections that cannot be merged
+		`{ as { x: b { id } x: id } }`,
+		`{ as { x: id x: b { id } } }`,
+		`{ x: as { id } x: n }`,
+		`{ us { ... on A { x: id } ... on A { x: b { id } } } }`,
+		`{ as { x: id x: name } bs { a { id: name } } }`,
+		`{ as { b { x: a { id } ...F } } } fragment F on B { x: id }`,
 	}
 	k := c.Choose(len(texts), "wild-query")
 	vars := map[string]interface{}{}
@@ -970,7 +977,14 @@ func mutateText(c *runner.Ctx, text string) string {
 	n := 1 + c.Choose(3, "mutations")
 	for k := 0; k < n && len(toks) > 0; k++ {
 		i := c.Choose(len(toks), "mutation-at")
-		switch c.Choose(4, "mutation-kind") {
+		switch c.Choose(5, "mutation-kind") {
+		case 4: // the same alias in front of two tokens (two selections that clash if they are siblings)
+			j := c.Choose(len(toks), "mutation-at-2")
+			if j < i {
+				i, j = j, i
+			}
+			toks = append(toks[:j], append([]string{"zz", ":"}, toks[j:]...)...)
+			toks = append(toks[:i], append([]string{"zz", ":"}, toks[i:]...)...)
 		case 0: // drop
 			toks = append(toks[:i], toks[i+1:]...)
 		case 1: // repeat
